@@ -232,6 +232,12 @@ def generations_corpus():
                    C("Mul", False, 0, [("l", ("cls", 0)), ("r", ("cls", 0))])], 2, [1, 2, 3]),
         gram.Spec([C("Expr", True, None), lit, C("Add", False, 0, [("l", ("cls", 0)), ("r", ("cls", 0))]),
                    C("Sum", False, 0, [("xs", ("ann", ("list", ("cls", 0)), ("listSize", 1, 3)))])], 2, [1, 2, 3]),
+        # a concrete single-field start symbol that recurs below itself through single-child nodes only:
+        # Block([Loop(Block([...]))]) with one-element lists, Prog(Call(Prog(...)))
+        gram.Spec([C("Stmt", True, None), C("Assign", False, 0, [("k", ("ann", "int", ("intRange", 0, 9)))]), C("Loop", False, 0, [("body", ("cls", 3))]),
+                   C("Block", False, None, [("stmts", ("ann", ("list", ("cls", 0)), ("listSize", 1, 2)))])], 3, [1, 2]),
+        gram.Spec([C("Node", True, None), C("Leaf", False, 0, [("k", ("ann", "int", ("intRange", 0, 9)))]), C("Call", False, 0, [("p", ("cls", 3))]),
+                   C("Prog", False, None, [("body", ("cls", 0))])], 3, [1, 2]),
     ]
 
 
